@@ -496,3 +496,67 @@ func init() {
 		t.close(false)
 	}
 }
+
+func init() {
+	// live-c14 <out>: five sub-packaged transfers go idle for more than 5 s (real time); the next inbound data must
+	// produce one 0x8003 per transfer, naming the first packet's serial and exactly the missing numbers - also when
+	// the writer is busy and more re-requests are pending than its queue holds
+	cmds["live-c14"] = func(a []string) {
+		l := startLive(liveOpts{})
+		phone := []byte{0x01, 0x29, 0x00, 0x00, 0x00, 0x14}
+		t := l.dial(phone, 0)
+		t.send(t.frame(0x0002, nil))
+		t.waitRecv(1, 5*time.Second)
+		ids := []int{0x0801, 0x0704, 0x0200, 0x0104, 0x1205}
+		var firsts []int
+		for i, id := range ids {
+			total := 3 + i%2
+			s := t.nextSerial()
+			firsts = append(firsts, s)
+			t.send(buildFrame(hdrSpec{id: id, serial: s, frag: 1, total: total, no: 1, phone: phone, body: []byte{1, 2, 3, byte(i)}}))
+			if i%2 == 1 { // one more packet for some transfers: the missing set differs per transfer
+				t.send(buildFrame(hdrSpec{id: id, serial: t.nextSerial(), frag: 1, total: total, no: 3, phone: phone, body: []byte{7, 7}}))
+			}
+		}
+		time.Sleep(5300 * time.Millisecond)
+		for len(t.recvCh) > 0 {
+			<-t.recvCh
+		}
+		held := make(chan struct{})
+		var once atomic.Bool
+		hold := func(c int) {
+			if c == t.idx && !once.Swap(true) {
+				select {
+				case <-held:
+				case <-time.After(400 * time.Millisecond):
+				}
+			}
+		}
+		l.writeHold.Store(&hold)
+		before := t.nrecv.Load()
+		t.send(t.frame(0x0002, nil)) // the next inbound data
+		t.waitRecv(before+6, 3*time.Second)
+		close(held)
+		l.writeHold.Store(nil)
+		time.Sleep(200 * time.Millisecond)
+		var frames []B
+		for len(t.recvCh) > 0 {
+			frames = append(frames, <-t.recvCh)
+		}
+		if frames == nil {
+			frames = []B{}
+		}
+		missing := [][]int{}
+		for i := range ids {
+			if i%2 == 1 {
+				missing = append(missing, []int{2, 4})
+			} else {
+				missing = append(missing, []int{2, 3})
+			}
+		}
+		out := newND(a[0])
+		out.put(map[string]any{"firsts": firsts, "missing": missing, "frames": frames})
+		out.close()
+		t.close(false)
+	}
+}
